@@ -333,3 +333,859 @@ func isStringWrite(name string, ci ssa.CallInstruction) bool {
 	bt, ok := args[1].Type().Underlying().(*types.Basic)
 	return ok && bt.Info()&types.IsString != 0
 }
+
+// ---------------------------------------------------------------------------------------------------------------
+// R20.10 a Read that returns data together with io.EOF has not failed.
+
+// R20.10 [C20, C01]
+func ruleReadEOFIsNotFailure(c *eng.Ctx) {
+	const R = "R20.10-READ-EOF-NOT-FAILURE"
+	c.Rule(R, "where the error of a single Read call on a reader of unknown kind (an io.Reader, the io.ReadCloser of a ZIP member) decides a branch, the function also compares that error with io.EOF: io.Reader allows Read to return the data and io.EOF in the same call, and the reader of a deflated ZIP member does exactly that, so `if err != nil { fail }` refuses every EPUB or ODT whose mimetype member was written compressed", 0, 1)
+	n := 0
+	for _, fn := range c.P.ModuleFuncs() {
+		if fn.Blocks == nil {
+			continue
+		}
+		k := 0
+		eng.Instrs(fn, true, func(in ssa.Instruction) {
+			call, ok := in.(*ssa.Call)
+			if !ok || !call.Call.IsInvoke() || call.Call.Method.Name() != "Read" {
+				return
+			}
+			sig := call.Call.Signature()
+			if sig.Params().Len() != 1 || sig.Results().Len() != 2 || !eng.IsErrorType(sig.Results().At(1).Type()) {
+				return
+			}
+			var errv ssa.Value
+			for _, r := range *call.Referrers() {
+				if ex, ok := r.(*ssa.Extract); ok && ex.Index == 1 {
+					errv = ex
+				}
+			}
+			if errv == nil {
+				return
+			}
+			// every value the error is copied into (phis, cells of named results)
+			decides := false
+			comparesEOF := false
+			isErr := func(v ssa.Value) bool {
+				for w := range eng.Slice(v, nil) {
+					if w == errv {
+						return true
+					}
+				}
+				return false
+			}
+			isEOF := func(v ssa.Value) bool {
+				u, ok := v.(*ssa.UnOp)
+				if !ok || u.Op != token.MUL {
+					return false
+				}
+				g, ok := u.X.(*ssa.Global)
+				return ok && g.Pkg != nil && g.Pkg.Pkg.Path() == "io" && (g.Name() == "EOF" || g.Name() == "ErrUnexpectedEOF")
+			}
+			eng.Instrs(in.Parent(), false, func(in2 ssa.Instruction) {
+				switch x := in2.(type) {
+				case *ssa.BinOp:
+					if x.Op != token.EQL && x.Op != token.NEQ {
+						return
+					}
+					if (isErr(x.X) && isEOF(x.Y)) || (isErr(x.Y) && isEOF(x.X)) {
+						comparesEOF = true
+					}
+					if (isErr(x.X) && eng.IsNilConst(x.Y)) || (isErr(x.Y) && eng.IsNilConst(x.X)) {
+						for _, r := range *x.Referrers() {
+							if _, isIf := r.(*ssa.If); isIf {
+								decides = true
+							}
+							if _, isB := r.(*ssa.BinOp); isB {
+								decides = true
+							}
+						}
+					}
+				case *ssa.Call:
+					if eng.CalleeName(x) == "errors.Is" && len(x.Call.Args) == 2 && isErr(x.Call.Args[0]) && isEOF(x.Call.Args[1]) {
+						comparesEOF = true
+					}
+				}
+			})
+			if !decides {
+				return
+			}
+			n++
+			k++
+			c.Check(comparesEOF, R, fmt.Sprintf("%s#read%d", eng.FuncName(fn), k), call.Pos(), "the error of the Read is compared with io.EOF", "the error of a single Read decides a branch and is never compared with io.EOF: a reader that returns its data together with io.EOF (a deflated ZIP member, a bytes reader at its end) is taken for a failed read, and a document written that way is refused")
+		})
+	}
+	c.Ok(R, "module#scanned", token.NoPos, fmt.Sprintf("%d Read calls on readers of unknown kind whose error decides a branch", n))
+}
+
+// ---------------------------------------------------------------------------------------------------------------
+// RX.CN callers of one function agree on cleaning the argument.
+
+// cleanerOf: v is (a re-slice or conversion of) the result of a function that takes one text and returns one text of
+// the same type - a module helper or one of the trimming functions of strings/bytes. Returns the cleaner's name.
+func cleanerOf(v ssa.Value) string {
+	for i := 0; i < 6; i++ {
+		switch x := v.(type) {
+		case *ssa.Convert:
+			v = x.X
+			continue
+		case *ssa.ChangeType:
+			v = x.X
+			continue
+		case *ssa.Call:
+			g := eng.StaticCallee(x)
+			if g == nil {
+				return ""
+			}
+			nm := eng.FuncName(g)
+			switch nm {
+			case "strings.TrimSpace", "strings.TrimLeft", "strings.TrimRight", "strings.Trim",
+				"bytes.TrimSpace", "bytes.TrimLeft", "bytes.TrimRight", "bytes.Trim", "strings.TrimLeftFunc", "bytes.TrimLeftFunc", "strings.ReplaceAll", "strings.Map":
+				return nm
+			}
+			if eng.InModule(g) && g.Signature.Results().Len() == 1 && g.Signature.Params().Len() >= 1 && g.Signature.Recv() == nil {
+				rt := g.Signature.Results().At(0).Type()
+				if types.Identical(rt, g.Signature.Params().At(0).Type()) && isTextType(rt) {
+					return nm
+				}
+			}
+			return ""
+		}
+		break
+	}
+	return ""
+}
+
+// collectedCleaned: v is an element of a list the function collected itself with append, and what it appended was
+// cleaned (tokens cut out of a section, each stripped before it is kept).
+func collectedCleaned(v ssa.Value) string {
+	u, ok := v.(*ssa.UnOp)
+	if !ok || u.Op != token.MUL {
+		return ""
+	}
+	ia, ok := u.X.(*ssa.IndexAddr)
+	if !ok {
+		return ""
+	}
+	out := ""
+	for w := range eng.Slice(ia.X, nil) {
+		call, ok := w.(*ssa.Call)
+		if !ok || eng.CalleeName(call) != "builtin:append" || len(call.Call.Args) != 2 {
+			continue
+		}
+		sl, ok := call.Call.Args[1].(*ssa.Slice)
+		if !ok {
+			continue
+		}
+		al, ok := sl.X.(*ssa.Alloc)
+		if !ok {
+			continue
+		}
+		for _, r := range *al.Referrers() {
+			ea, ok := r.(*ssa.IndexAddr)
+			if !ok {
+				continue
+			}
+			for _, rr := range *ea.Referrers() {
+				if st, ok := rr.(*ssa.Store); ok {
+					if cl := cleanerOf(st.Val); cl != "" {
+						out = cl
+					} else {
+						return "" // one element is kept as it is
+					}
+				}
+			}
+		}
+	}
+	return out
+}
+
+func isTextType(t types.Type) bool {
+	if bt, ok := t.Underlying().(*types.Basic); ok {
+		return bt.Info()&types.IsString != 0
+	}
+	if sl, ok := t.Underlying().(*types.Slice); ok {
+		if bt, ok := sl.Elem().Underlying().(*types.Basic); ok {
+			return bt.Kind() == types.Uint8
+		}
+	}
+	return false
+}
+
+func callersAgreeRule(id string, pkgs ...string) func(*eng.Ctx) {
+	return func(c *eng.Ctx) {
+		R := id + "-CALLERS-AGREE-ON-CLEANING"
+		c.Rule(R, "the call sites of one unexported function agree on cleaning a text argument: where one caller hands the function the result of a trimming or normalising function (strings.TrimSpace, a helper of the package that maps a text to a text) and the function does not clean that parameter itself, every other caller hands it a text cleaned the same way or derived from one. A cleaning step moved out of a function into 'the' caller silently disappears for the callers that were not edited", 0, 1)
+		inPkgs := map[string]bool{}
+		for _, p := range pkgs {
+			inPkgs[p] = true
+		}
+		type site struct {
+			ci      ssa.CallInstruction
+			cleaner string
+		}
+		sites := map[*ssa.Function]map[int][]site{}
+		for _, fn := range c.P.ModuleFuncs() {
+			if fn.Blocks == nil || fn.Pkg == nil {
+				continue
+			}
+			sp := eng.ShortPath(fn.Pkg.Pkg.Path())
+			if !inPkgs[sp] && !strings.Contains(sp, eng.PositivePkg) {
+				continue
+			}
+			eng.Instrs(fn, false, func(in ssa.Instruction) {
+				ci, ok := in.(ssa.CallInstruction)
+				if !ok {
+					return
+				}
+				g := eng.StaticCallee(ci)
+				if g == nil || !eng.InModule(g) || g.Pkg != fn.Pkg || g.Blocks == nil {
+					return
+				}
+				if obj, ok := g.Object().(*types.Func); !ok || obj.Exported() {
+					return
+				}
+				args := eng.ArgsWithRecv(ci)
+				for i, a := range args {
+					if i >= len(g.Params) || !isTextType(g.Params[i].Type()) {
+						continue
+					}
+					cl := cleanerOf(a)
+					if cl == "" {
+						cl = collectedCleaned(a)
+					}
+					if sites[g] == nil {
+						sites[g] = map[int][]site{}
+					}
+					sites[g][i] = append(sites[g][i], site{ci, cl})
+				}
+			})
+		}
+		n := 0
+		var fns []*ssa.Function
+		for g := range sites {
+			fns = append(fns, g)
+		}
+		sortFuncs(fns)
+		for _, g := range fns {
+			for i := 0; i < len(g.Params); i++ {
+				ss := sites[g][i]
+				cleaned := map[string]int{}
+				var raw []site
+				for _, s := range ss {
+					if s.cleaner != "" {
+						cleaned[s.cleaner]++
+					} else {
+						raw = append(raw, s)
+					}
+				}
+				if len(cleaned) == 0 || len(raw) == 0 {
+					continue
+				}
+				// the function cleans the parameter itself: the callers' cleaning is a courtesy
+				self := false
+				for _, r := range *g.Params[i].Referrers() {
+					if v, ok := r.(ssa.Value); ok && cleanerOf(v) != "" {
+						self = true
+					}
+				}
+				if self {
+					continue
+				}
+				var names []string
+				for nm := range cleaned {
+					names = append(names, nm)
+				}
+				sortStrings(names)
+				for _, s := range raw {
+					// the caller hands on its own parameter, and every caller of the caller hands it a cleaned text
+					if prm, isP := eng.ArgsWithRecv(s.ci)[i].(*ssa.Parameter); isP {
+						h := s.ci.Parent()
+						idx := -1
+						for j, q := range h.Params {
+							if q == prm {
+								idx = j
+							}
+						}
+						if up := sites[h][idx]; idx >= 0 && len(up) > 0 {
+							all := true
+							for _, u := range up {
+								if u.cleaner == "" {
+									all = false
+								}
+							}
+							if all {
+								continue
+							}
+						}
+					}
+					// the raw text is a constant or comes from a source that cannot carry what the cleaner removes
+					if _, isC := eng.ArgsWithRecv(s.ci)[i].(*ssa.Const); isC {
+						continue
+					}
+					n++
+					c.Viol(R, fmt.Sprintf("%s#arg%d@%s", eng.FuncName(g), i, eng.FuncName(s.ci.Parent())), s.ci.Pos(), fmt.Sprintf("%s is handed a text cleaned with %s by other callers and does not clean it itself, but this call in %s hands it the text as it is: what the cleaner removes (leading white space, separators) reaches the function here and is read as content", eng.FuncName(g), strings.Join(names, ", "), eng.FuncName(s.ci.Parent())))
+				}
+			}
+		}
+		c.Ok(R, "module#scanned", token.NoPos, fmt.Sprintf("%d functions with text parameters and in-package callers compared, %d raw call sites", len(fns), n))
+	}
+}
+
+func sortFuncs(fs []*ssa.Function) {
+	for i := 1; i < len(fs); i++ {
+		for j := i; j > 0 && eng.FuncName(fs[j]) < eng.FuncName(fs[j-1]); j-- {
+			fs[j], fs[j-1] = fs[j-1], fs[j]
+		}
+	}
+}
+
+func sortStrings(s []string) {
+	for i := 1; i < len(s); i++ {
+		for j := i; j > 0 && s[j] < s[j-1]; j-- {
+			s[j], s[j-1] = s[j-1], s[j]
+		}
+	}
+}
+
+// ---------------------------------------------------------------------------------------------------------------
+// R18.19 a reference is percent-decoded once.
+
+// R18.19 [C18]
+func ruleDecodedOnce(c *eng.Ctx) {
+	const R = "R18.19-DECODED-ONCE"
+	c.Rule(R, "in the EPUB reader the argument of url.PathUnescape / url.QueryUnescape never derives from a text that was percent-decoded before (the result of an earlier decoding, a struct field that holds one, or a parameter handed such a value by a caller in the package): an href that escapes a literal percent sign (chapter%2520one.xhtml for the member chapter%20one.xhtml) decoded twice names another member, so the declared part is dropped or an undeclared member is read in its place", 1, 1)
+	isDecoder := func(call *ssa.Call) bool {
+		switch eng.CalleeName(call) {
+		case "net/url.PathUnescape", "net/url.QueryUnescape":
+			return true
+		}
+		return false
+	}
+	var fns []*ssa.Function
+	for _, fn := range c.P.ModuleFuncs() {
+		if fn.Blocks == nil || fn.Pkg == nil {
+			continue
+		}
+		sp := eng.ShortPath(fn.Pkg.Pkg.Path())
+		if sp == "epubdoc" || strings.Contains(sp, eng.PositivePkg) {
+			fns = append(fns, fn)
+		}
+	}
+	decodedFields := map[string]bool{}
+	returnsDecoded := map[*ssa.Function]bool{}
+	var origin func(v ssa.Value, fn *ssa.Function, depth int) bool
+	origin = func(v ssa.Value, fn *ssa.Function, depth int) bool {
+		if depth > 3 {
+			return false
+		}
+		for w := range eng.Slice(v, func(*ssa.Call) bool { return false }) {
+			switch x := w.(type) {
+			case *ssa.Call:
+				if isDecoder(x) {
+					return true
+				}
+				if g := eng.StaticCallee(x); g != nil && returnsDecoded[g] {
+					return true
+				}
+			case *ssa.Extract:
+				if call, ok := x.Tuple.(*ssa.Call); ok && x.Index == 0 {
+					if isDecoder(call) {
+						return true
+					}
+					if g := eng.StaticCallee(call); g != nil && returnsDecoded[g] {
+						return true
+					}
+				}
+			case *ssa.Parameter:
+				idx := -1
+				for j, q := range fn.Params {
+					if q == x {
+						idx = j
+					}
+				}
+				if idx < 0 {
+					continue
+				}
+				for _, h := range fns {
+					if h.Pkg != fn.Pkg {
+						continue
+					}
+					for _, ci := range eng.Calls(h, false, func(_ string, ci ssa.CallInstruction) bool { return eng.StaticCallee(ci) == fn }) {
+						args := eng.ArgsWithRecv(ci)
+						if idx < len(args) && origin(args[idx], h, depth+1) {
+							return true
+						}
+					}
+				}
+			default:
+				if fr, ok := eng.LoadOfField(w); ok && decodedFields[fr.Struct+"."+fr.Field] {
+					return true
+				}
+			}
+		}
+		return false
+	}
+	for round := 0; round < 3; round++ {
+		for _, fn := range fns {
+			for _, r := range eng.Returns(fn) {
+				for _, v := range eng.ReturnValues(r) {
+					if bt, ok := v.Type().Underlying().(*types.Basic); ok && bt.Info()&types.IsString != 0 && origin(v, fn, 0) {
+						returnsDecoded[fn] = true
+					}
+				}
+			}
+			eng.Instrs(fn, false, func(in ssa.Instruction) {
+				st, ok := in.(*ssa.Store)
+				if !ok {
+					return
+				}
+				fr, ok := eng.AsField(st.Addr)
+				if !ok {
+					return
+				}
+				if bt, isB := st.Val.Type().Underlying().(*types.Basic); !isB || bt.Info()&types.IsString == 0 {
+					return
+				}
+				if origin(st.Val, fn, 0) {
+					decodedFields[fr.Struct+"."+fr.Field] = true
+				}
+			})
+		}
+	}
+	n := 0
+	for _, fn := range fns {
+		for _, ci := range eng.Calls(fn, false, func(_ string, ci ssa.CallInstruction) bool {
+			call, ok := ci.(*ssa.Call)
+			return ok && isDecoder(call)
+		}) {
+			n++
+			arg := ci.Common().Args[0]
+			c.Check(!origin(arg, fn, 0), R, fmt.Sprintf("%s#decode%d", eng.FuncName(fn), n), ci.Pos(), "the text that is decoded was not decoded before", "the text handed to the percent-decoder was percent-decoded before (it derives from an earlier decoding or from a field that holds one): an href with an escaped percent sign (c%2520two.xhtml) becomes 'c two.xhtml' instead of 'c%20two.xhtml', the declared part is not found and is dropped, or another member is read in its place")
+		}
+	}
+	if n == 0 {
+		c.Ok(R, "epubdoc#decoders", token.NoPos, "no percent-decoding in the package: not evaluated")
+	}
+}
+
+// ---------------------------------------------------------------------------------------------------------------
+// R17.16 an address written in the file is not replaced.
+
+// R17.16 [C17]
+func ruleDeclaredAddressKept(c *eng.Ctx) {
+	const R = "R17.16-DECLARED-ADDRESS-KEPT"
+	c.Rule(R, "in the XLSX reader a field that holds the r attribute of a <row> or <c> element (the row number, the cell reference) is assigned only where it was found absent (compared equal with 0 or \"\" on the way) or from a value derived from itself: a row or cell that carries its address is placed there, whatever order the file lists the rows in; renumbering a row because its number is lower than the previous row's moves its cells to a row their references do not name", 0, 1)
+	n := 0
+	for _, fn := range c.P.ModuleFuncs() {
+		if fn.Blocks == nil || fn.Pkg == nil {
+			continue
+		}
+		sp := eng.ShortPath(fn.Pkg.Pkg.Path())
+		if sp != "xlsx" && !strings.Contains(sp, eng.PositivePkg) {
+			continue
+		}
+		k := 0
+		eng.Instrs(fn, true, func(in ssa.Instruction) {
+			st, ok := in.(*ssa.Store)
+			if !ok {
+				return
+			}
+			fa, ok := st.Addr.(*ssa.FieldAddr)
+			if !ok {
+				return
+			}
+			stt, ok := fa.X.Type().Underlying().(*types.Pointer).Elem().Underlying().(*types.Struct)
+			if !ok {
+				return
+			}
+			tag := stt.Tag(fa.Field)
+			if !strings.Contains(tag, `xml:"r,attr"`) {
+				return
+			}
+			// a struct under construction (a literal) is not an element read from the file
+			if _, isAlloc := fa.X.(*ssa.Alloc); isAlloc {
+				return
+			}
+			n++
+			k++
+			same := func(v ssa.Value) bool {
+				u, ok := v.(*ssa.UnOp)
+				if !ok || u.Op != token.MUL {
+					return false
+				}
+				fb, ok := u.X.(*ssa.FieldAddr)
+				return ok && fb.Field == fa.Field && eng.SameValue(fb.X, fa.X)
+			}
+			// derived from itself: through calls and operators only (a value carried around a loop comes from another element)
+			fromItself := false
+			var walk func(v ssa.Value, d int)
+			walk = func(v ssa.Value, d int) {
+				if d > 6 || fromItself {
+					return
+				}
+				if same(v) {
+					fromItself = true
+					return
+				}
+				switch x := v.(type) {
+				case *ssa.Call:
+					for _, a := range x.Call.Args {
+						walk(a, d+1)
+					}
+				case *ssa.BinOp:
+					walk(x.X, d+1)
+					walk(x.Y, d+1)
+				case *ssa.Convert:
+					walk(x.X, d+1)
+				case *ssa.Extract:
+					walk(x.Tuple, d+1)
+				case *ssa.Slice:
+					walk(x.X, d+1)
+				}
+			}
+			walk(st.Val, 0)
+			absent := eng.GuardedBy(in.Parent(), st.Block(), func(f eng.Fact) bool {
+				op, x, y, ok := f.Cmp()
+				if !ok || op != token.EQL {
+					return false
+				}
+				for _, pair := range [][2]ssa.Value{{x, y}, {y, x}} {
+					if !same(pair[0]) {
+						continue
+					}
+					if k, isC := eng.ConstInt(pair[1]); isC && k == 0 {
+						return true
+					}
+					if s, isS := eng.ConstString(pair[1]); isS && s == "" {
+						return true
+					}
+				}
+				return false
+			})
+			c.Check(fromItself || absent, R, fmt.Sprintf("%s#address%d", eng.FuncName(fn), k), st.Pos(), "assigned only where absent, or derived from itself", "the address an element carries in its r attribute is replaced by another one where it was not found absent: rows written out of ascending order (3, 1, 5, 2) are renumbered, and their cells appear on rows other than the ones their references name")
+		})
+	}
+	c.Ok(R, "xlsx#scanned", token.NoPos, fmt.Sprintf("%d assignments to an r attribute field", n))
+}
+
+// ---------------------------------------------------------------------------------------------------------------
+// R16.18 a table cell goes into a row-per-line rendering on one line.
+
+// R16.18 [C16, C15]
+func ruleTableCellOnOneLine(c *eng.Ctx) {
+	const R = "R16.18-TABLE-CELL-ON-ONE-LINE"
+	c.Rule(R, "in the ToText and ToMarkdown writers of the DOCX and ODT tables, which put one table row on one output line, every text that comes from a cell (a field or method of a ...TableCell value) reaches the output through a function that deals with line feeds: strings.ReplaceAll/Replace/NewReplacer naming \"\\n\", strings.Fields, strings.Map, or a helper of the package that handles \"\\n\". A cell holds line feeds between its paragraphs and for every line break inside a paragraph; written as it is the row is cut in two, the rest is no longer a table row and the grid is not the one authored", 4, 1)
+	n := 0
+	for _, fn := range c.P.ModuleFuncs() {
+		if fn.Blocks == nil || fn.Pkg == nil || fn.Signature.Recv() == nil || fn.Parent() != nil {
+			continue
+		}
+		sp := eng.ShortPath(fn.Pkg.Pkg.Path())
+		if sp != "docx" && sp != "odt" && !strings.Contains(sp, eng.PositivePkg) {
+			continue
+		}
+		if fn.Name() != "ToText" && fn.Name() != "ToMarkdown" {
+			continue
+		}
+		if !strings.HasSuffix(eng.TypeName(fn.Signature.Recv().Type()), "ParsedTable") {
+			continue
+		}
+		isCell := func(t types.Type) bool {
+			if p, ok := t.Underlying().(*types.Pointer); ok {
+				t = p.Elem()
+			}
+			return strings.HasSuffix(eng.TypeName(t), "TableCell")
+		}
+		k := 0
+		for _, h := range eng.Cluster(fn, 1) {
+			if h.Pkg != fn.Pkg {
+				continue
+			}
+			eng.Instrs(h, true, func(in ssa.Instruction) {
+				ci, ok := in.(ssa.CallInstruction)
+				if !ok || !isStringWrite(eng.CalleeName(ci), ci) {
+					return
+				}
+				arg := ci.Common().Args[1]
+				fromCell, oneLine := false, false
+				for w := range eng.Slice(arg, func(*ssa.Call) bool { return true }) {
+					switch x := w.(type) {
+					case *ssa.FieldAddr:
+						if isCell(x.X.Type()) {
+							if bt, ok := x.Type().Underlying().(*types.Pointer).Elem().Underlying().(*types.Basic); ok && bt.Info()&types.IsString != 0 {
+								fromCell = true
+							}
+							if _, isSl := x.Type().Underlying().(*types.Pointer).Elem().Underlying().(*types.Slice); isSl {
+								fromCell = true
+							}
+						}
+					case *ssa.Field:
+						if isCell(x.X.Type()) {
+							if bt, ok := x.Type().Underlying().(*types.Basic); ok && bt.Info()&types.IsString != 0 {
+								fromCell = true
+							}
+							if _, isSl := x.Type().Underlying().(*types.Slice); isSl {
+								fromCell = true
+							}
+						}
+					case *ssa.Call:
+						cn := eng.CalleeName(x)
+						switch cn {
+						case "strings.ReplaceAll", "strings.Replace":
+							if s, ok := eng.ConstString(x.Call.Args[1]); ok && strings.Contains(s, "\n") {
+								oneLine = true
+							}
+						case "strings.Fields", "strings.Map", "strings.FieldsFunc", "strings.(*Replacer).Replace":
+							oneLine = true
+						default:
+							if cal := eng.StaticCallee(x); cal != nil && eng.InModule(cal) {
+								if mentionsLineBreak(cal) {
+									oneLine = true
+								}
+								if cal.Signature.Recv() != nil && isCell(cal.Signature.Recv().Type()) {
+									if bt, ok := x.Type().Underlying().(*types.Basic); ok && bt.Info()&types.IsString != 0 {
+										fromCell = true
+									}
+								}
+							}
+						}
+					}
+				}
+				if !fromCell {
+					return
+				}
+				n++
+				k++
+				c.Check(oneLine, R, fmt.Sprintf("%s#cell-text%d", eng.FuncName(fn), k), ci.Pos(), "the cell text passes a function that handles line feeds", "a text taken from a table cell is written into the one-row-per-line output without passing a function that handles line feeds: a line break inside a cell paragraph (text:line-break, w:br) cuts the row in two, the row loses a field and the rest appears as a line of its own")
+			})
+		}
+	}
+	if n == 0 {
+		c.Undec(R, "docx/odt#table-writers", token.NoPos, "no write of a cell text found in the ToText/ToMarkdown writers")
+	}
+}
+
+// ---------------------------------------------------------------------------------------------------------------
+// R19.16 a list item without text of its own still has its nested lists read.
+
+// R19.16 [C19, C15]
+func ruleTextlessItemKeepsNestedLists(c *eng.Ctx) {
+	const R = "R19.16-TEXTLESS-ITEM-KEEPS-NESTED-LISTS"
+	c.Rule(R, "in the HTML tree walks, where the direct text of a list item (getDirectTextContent) is found empty, the code that follows on that side still reaches the recursive walk of the item's children: <li><ul>...</ul></li> is how a nested list is written when the outer item has no text, and an early return for the empty item would drop every item of the nested list", 0, 1)
+	n := 0
+	for _, fn := range c.P.ModuleFuncs() {
+		if fn.Blocks == nil || fn.Pkg == nil {
+			continue
+		}
+		sp := eng.ShortPath(fn.Pkg.Pkg.Path())
+		if sp != "htmldoc" && !strings.Contains(sp, eng.PositivePkg) {
+			continue
+		}
+		k := 0
+		for _, ci := range eng.Calls(fn, false, func(nm string, _ ssa.CallInstruction) bool {
+			return strings.HasSuffix(nm, "htmldoc.getDirectTextContent") || nm == eng.PositivePkg+".directText"
+		}) {
+			text, ok := ci.(*ssa.Call)
+			if !ok {
+				continue
+			}
+			// the walk is recursive: the function (or a sibling walk) calls itself somewhere
+			walks := func(b *ssa.BasicBlock) bool {
+				for _, in := range b.Instrs {
+					if call, ok := in.(ssa.CallInstruction); ok {
+						if g := eng.StaticCallee(call); g != nil && (g == fn || (g.Pkg == fn.Pkg && strings.HasPrefix(g.Name(), "traverse"))) {
+							return true
+						}
+					}
+				}
+				return false
+			}
+			recursive := false
+			for _, b := range fn.Blocks {
+				if walks(b) {
+					recursive = true
+				}
+			}
+			if !recursive {
+				continue
+			}
+			for _, r := range *text.Referrers() {
+				cmp, ok := r.(*ssa.BinOp)
+				if !ok || (cmp.Op != token.EQL && cmp.Op != token.NEQ) {
+					continue
+				}
+				other := cmp.Y
+				if other == ssa.Value(text) {
+					other = cmp.X
+				}
+				if s, isS := eng.ConstString(other); !isS || s != "" {
+					continue
+				}
+				for _, rr := range *cmp.Referrers() {
+					iff, ok := rr.(*ssa.If)
+					if !ok {
+						continue
+					}
+					empty := iff.Block().Succs[0]
+					if cmp.Op == token.NEQ {
+						empty = iff.Block().Succs[1]
+					}
+					n++
+					k++
+					reach := eng.ReachableBlocks([]*ssa.BasicBlock{empty}, nil)
+					found := false
+					for b := range reach {
+						if walks(b) {
+							found = true
+						}
+					}
+					c.Check(found, R, fmt.Sprintf("%s#empty-item%d", eng.FuncName(fn), k), cmp.Pos(), "the side for an item without text reaches the walk of its children", "where the list item has no text of its own the function ends without walking the item's children: the items of a list nested in a text-less item (<li><ul><li>x</li></ul></li>) are lost from text, Markdown and the document model")
+				}
+			}
+		}
+	}
+	if n == 0 {
+		c.Ok(R, "htmldoc#walks", token.NoPos, "no emptiness test on a list item's direct text in a recursive walk: not evaluated")
+	}
+}
+
+// ---------------------------------------------------------------------------------------------------------------
+// R15.15 the body of a chunk is written whatever it says.
+
+// R15.15 [C15]
+func ruleChunkBodyWrittenUnconditionally(c *eng.Ctx) {
+	const R = "R15.15-CHUNK-BODY-UNCONDITIONAL"
+	c.Rule(R, "in rag.(*Chunk).contentToMarkdown (the writer ChunkCollection.ToMarkdownWithOptions uses for every chunk that does not open a new section) and its helpers, the write of the chunk's Text does not stand under a comparison of that Text with another text: the 'skip the text when it equals the section title' test belongs to the writer that has just written the title as a heading; here no heading was written, and a body chunk that repeats its section title (a caption, a running title) would be dropped from the document", 1, 0)
+	fn := c.P.Func("rag.(*Chunk).contentToMarkdown")
+	if fn == nil {
+		c.Ok(R, "rag.(*Chunk).contentToMarkdown", token.NoPos, "no such writer: not evaluated")
+		return
+	}
+	n := 0
+	for _, h := range eng.Cluster(fn, 1) {
+		if h.Pkg != fn.Pkg {
+			continue
+		}
+		for _, ci := range eng.Calls(h, false, func(nm string, wc ssa.CallInstruction) bool { return isStringWrite(nm, wc) }) {
+			arg := ci.Common().Args[1]
+			fr, ok := eng.LoadOfField(arg)
+			if !ok || fr.Field != "Text" || !strings.HasSuffix(fr.Struct, "rag.Chunk") {
+				continue
+			}
+			n++
+			isText := func(v ssa.Value) bool {
+				f2, ok := eng.LoadOfField(v)
+				return ok && f2.Field == "Text" && strings.HasSuffix(f2.Struct, "rag.Chunk")
+			}
+			conditional := eng.GuardedBy(h, ci.Block(), func(f eng.Fact) bool {
+				op, x, y, ok := f.Cmp()
+				if !ok || (op != token.EQL && op != token.NEQ) {
+					return false
+				}
+				for _, pair := range [][2]ssa.Value{{x, y}, {y, x}} {
+					if !isText(pair[0]) {
+						continue
+					}
+					if s, isS := eng.ConstString(pair[1]); isS && s == "" {
+						continue // nothing to write
+					}
+					return true
+				}
+				return false
+			})
+			c.Check(!conditional, R, fmt.Sprintf("%s#text%d", eng.FuncName(h), n), ci.Pos(), "the chunk text is written whatever it says", "the chunk's Text is written only when it differs from another text (the section title): on this path no heading was written before, so a body chunk whose text equals its section title disappears from the Markdown document")
+		}
+	}
+	if n == 0 {
+		c.Ok(R, "rag.(*Chunk).contentToMarkdown#text", fn.Pos(), "no direct write of Chunk.Text found: not evaluated")
+	}
+}
+
+// ---------------------------------------------------------------------------------------------------------------
+// R9.10 the text pipeline drops no character by its class.
+
+// R9.10 [C09]
+func ruleNoCharacterClassFilter(c *eng.Ctx) {
+	const R = "R9.10-NO-CHARACTER-CLASS-FILTER"
+	c.Rule(R, "in the packages between the content stream and the returned page text (tabula, text, layout, model) no strings.Map / bytes.Map is applied with a mapping function that can answer a negative value (drop the character) for anything but white space: a filter by Unicode class (IsPrint, IsGraphic, not IsControl) also removes format and private-use characters - zero-width joiners of Persian and Indic text, soft hyphens, the U+F0B7 bullet of Symbol fonts - which are non-white-space characters of the input fragments", 0, 1)
+	n := 0
+	for _, fn := range c.P.ModuleFuncs() {
+		if fn.Blocks == nil || fn.Pkg == nil {
+			continue
+		}
+		sp := eng.ShortPath(fn.Pkg.Pkg.Path())
+		if sp != "" && sp != "text" && sp != "layout" && sp != "model" && !strings.Contains(sp, eng.PositivePkg) {
+			continue
+		}
+		k := 0
+		for _, ci := range eng.Calls(fn, false, func(nm string, _ ssa.CallInstruction) bool { return nm == "strings.Map" || nm == "bytes.Map" }) {
+			var mapper *ssa.Function
+			switch m := ci.Common().Args[0].(type) {
+			case *ssa.MakeClosure:
+				mapper, _ = m.Fn.(*ssa.Function)
+			case *ssa.Function:
+				mapper = m
+			}
+			if mapper == nil || mapper.Blocks == nil {
+				continue
+			}
+			n++
+			k++
+			drops := ""
+			for _, r := range eng.Returns(mapper) {
+				for _, v := range eng.ReturnValues(r) {
+					neg := false
+					for w := range eng.Slice(v, nil) {
+						if kk, ok := eng.ConstInt(w); ok && kk < 0 {
+							neg = true
+						}
+					}
+					if !neg {
+						continue
+					}
+					onlySpace := eng.GuardedBy(mapper, r.Block(), func(f eng.Fact) bool {
+						call, ok := f.Cond.(*ssa.Call)
+						return ok && f.Pos && eng.CalleeName(call) == "unicode.IsSpace"
+					})
+					if !onlySpace {
+						drops = c.P.Pos(r.Pos())
+					}
+				}
+			}
+			c.Check(drops == "", R, fmt.Sprintf("%s#map%d", eng.FuncName(fn), k), ci.Pos(), "the mapping function drops nothing but white space", "the mapping function can drop a character that is not white space (return of a negative value at "+drops+"): characters of the fragments (zero-width joiners, soft hyphens, private-use bullets) are missing from the page text")
+		}
+	}
+	c.Ok(R, "pipeline#scanned", token.NoPos, fmt.Sprintf("%d strings.Map/bytes.Map calls with a known mapping function", n))
+}
+
+// ---------------------------------------------------------------------------------------------------------------
+// R19.17 the HTML input is not re-decoded with a guessed legacy encoding.
+
+// R19.17 [C19]
+func ruleNoGuessedTranscoding(c *eng.Ctx) {
+	const R = "R19.17-NO-GUESSED-TRANSCODING"
+	c.Rule(R, "the HTML and EPUB readers do not wrap their input in charset.NewReader with an empty content type: that reader looks at the first 1024 bytes only and, finding neither a byte-order mark, a meta declaration nor a non-ASCII byte there, decodes the whole stream as windows-1252, so a UTF-8 page whose first kilobyte is plain ASCII comes back with every later non-ASCII character turned into two or three wrong ones", 0, 1)
+	n := 0
+	for _, fn := range c.P.ModuleFuncs() {
+		if fn.Blocks == nil || fn.Pkg == nil {
+			continue
+		}
+		sp := eng.ShortPath(fn.Pkg.Pkg.Path())
+		if sp != "htmldoc" && sp != "epubdoc" && sp != "" && !strings.Contains(sp, eng.PositivePkg) {
+			continue
+		}
+		k := 0
+		for _, ci := range eng.Calls(fn, true, func(nm string, _ ssa.CallInstruction) bool {
+			return nm == "golang.org/x/net/html/charset.NewReader"
+		}) {
+			n++
+			k++
+			ct, isC := eng.ConstString(ci.Common().Args[1])
+			c.Check(!(isC && ct == ""), R, fmt.Sprintf("%s#transcode%d", eng.FuncName(fn), k), ci.Pos(), "the content type is given", "the input is wrapped in charset.NewReader(r, \"\"): without a declaration in the first 1024 bytes the whole document is decoded as windows-1252, and a UTF-8 document without a charset declaration whose first kilobyte is ASCII loses every non-ASCII character to mojibake")
+		}
+	}
+	c.Ok(R, "html#scanned", token.NoPos, fmt.Sprintf("%d transcoding readers", n))
+}
